@@ -39,6 +39,7 @@ type Data struct {
 	Degenerate []string     `json:"degenerate,omitempty"`
 	MaxCut     int          `json:"max_cut,omitempty"`
 	DecorProd  bool         `json:"decor_product,omitempty"`
+	Uniform    bool         `json:"uniform,omitempty"`
 	Pinned     bool         `json:"pinned,omitempty"` // only the encoding (Decor, Policy | Choices); otherwise every encoding
 	Decor      int          `json:"decor,omitempty"`
 	Policy     string       `json:"policy,omitempty"`
@@ -69,6 +70,10 @@ type specEntry struct {
 	name string
 	kind string
 	node *specNode
+	// deep: a spec for block types with 3, 4 or 5 labels; only the "deep" family
+	// of configurations meets it (and that family meets only the deep specs and
+	// three small ones), which keeps the table product bounded.
+	deep bool
 }
 
 func attr(name string, ty cty.Type) *hcldec.AttrSpec { return &hcldec.AttrSpec{Name: name, Type: ty} }
@@ -138,8 +143,32 @@ func specList() []specEntry {
 	for _, s := range list {
 		out = append(out, specEntry{name: s.name, kind: s.kind, node: describe(s.spec)})
 	}
+	// block types with 3, 4 and 5 labels: one BlockLabelSpec per label index, label
+	// names consumed by BlockMapSpec / BlockObjectSpec, and mixtures of both
+	labelsObj := func(n int, a hcldec.Spec) hcldec.ObjectSpec {
+		o := hcldec.ObjectSpec{"a": a}
+		for i := 0; i < n; i++ {
+			o[fmt.Sprintf("l%d", i)] = &hcldec.BlockLabelSpec{Index: i, Name: fmt.Sprintf("l%d", i)}
+		}
+		return o
+	}
+	names := []string{"k0", "k1", "k2", "k3", "k4"}
+	for _, n := range []int{3, 4, 5} {
+		deep := []e{
+			{fmt.Sprintf("x-list-label%d", n), "blocklabel", hcldec.ObjectSpec{"x": &hcldec.BlockListSpec{TypeName: "x", Nested: labelsObj(n, dynA)}}},
+			{fmt.Sprintf("x-map%d", n), "blockmap", hcldec.ObjectSpec{"x": &hcldec.BlockMapSpec{TypeName: "x", LabelNames: names[:n], Nested: hcldec.ObjectSpec{"a": strA}}}},
+			{fmt.Sprintf("x-object%d", n), "blockobject", hcldec.ObjectSpec{"x": &hcldec.BlockObjectSpec{TypeName: "x", LabelNames: names[:n], Nested: inner}}},
+			{fmt.Sprintf("x-map2-label%d", n-2), "blockmap", hcldec.ObjectSpec{"x": &hcldec.BlockMapSpec{TypeName: "x", LabelNames: names[:2], Nested: labelsObj(n-2, strA)}}},
+		}
+		for _, s := range deep {
+			out = append(out, specEntry{name: s.name, kind: s.kind, node: describe(s.spec), deep: true})
+		}
+	}
 	return out
 }
+
+// deepAlso: the ordinary specs the deep family meets too (label-count mismatches).
+var deepAlso = map[string]bool{"x-list": true, "x-map2": true, "x-list-label2": true}
 
 var specs = specList()
 var specByName = func() map[string]specEntry {
@@ -449,7 +478,8 @@ func compareContent(n, j *cobs, order bool, path string) (string, string) {
 			return "attr-eval-error", fmt.Sprintf("%s: attribute %q evaluation error native=%v JSON=%v", path, a.name, a.err, b.err)
 		}
 		if !a.err && !a.val.RawEquals(b.val) {
-			return "attr-value", fmt.Sprintf("%s: attribute %q native=%s JSON=%s", path, a.name, vfmt.V(a.val), vfmt.V(b.val))
+			// qualified by the literal's type: the difference is in the expression mapping, whatever the spec
+			return "attr-value." + strings.Fields(strings.ReplaceAll(a.val.Type().FriendlyName(), "dynamic", "null"))[0], fmt.Sprintf("%s: attribute %q native=%s JSON=%s", path, a.name, vfmt.V(a.val), vfmt.V(b.val))
 		}
 	}
 	nb, jb := n.blocks, j.blocks
@@ -505,7 +535,7 @@ func attrNames(as []aobs) string {
 // ---------------------------------------------------------------- judge
 
 func encOptions(d Data) absconf.Options {
-	return absconf.Options{Decor: true, DecorProduct: d.DecorProd, DegenerateTypes: d.Degenerate, MaxCutProps: d.MaxCut}
+	return absconf.Options{Decor: true, DecorProduct: d.DecorProd, DegenerateTypes: d.Degenerate, MaxCutProps: d.MaxCut, Uniform: d.Uniform}
 }
 
 type verdict struct {
@@ -570,7 +600,11 @@ func judgeEncoding(d Data, se specEntry, nObs *obs, refN *reading, enc *absconf.
 	}
 	if !nc.err {
 		if cl, detail := compareContent(nc, jc, enc.Order, ""); cl != "" {
-			o := engine.Fail("c03.content."+cl+"."+ctag, "%sBody.Content(ImpliedSchema) differs: %s", where(), detail)
+			tag := ctag
+			if strings.HasPrefix(cl, "attr-value") {
+				tag = feat
+			}
+			o := engine.Fail("c03.content."+cl+"."+tag, "%sBody.Content(ImpliedSchema) differs: %s", where(), detail)
 			return verdict{fail: &o}
 		}
 	}
@@ -683,6 +717,12 @@ func literals(tier string) []absconf.Val {
 		absconf.Bool(true), absconf.Bool(false), absconf.Null(),
 		L(), L(N("1"), S("s")), L(L(absconf.Bool(true)), absconf.Null()),
 		O(), O(F("p", N("1"))), O(F("p", O(F("q", L(N("1")))))), O(F("//", N("1"))), O(F("k m", S("v")), F("p", absconf.Null())),
+		// numbers that need more than 53 bits / 17 significant digits (both syntaxes parse at 512-bit precision)
+		N("9007199254740993"), N("8.000000000000003"), N("123456789012345678"), N("18446744073709551615"),
+		N("0.1000000000000000055511151231257827"), N("1e-7"), N("-0.0"),
+		L(N("9007199254740993"), N("0.1000000000000000055511151231257827")),
+		O(F("p", N("18446744073709551615")), F("q", L(N("8.000000000000003")))),
+		L(O(F("n", N("123456789012345678"))), N("-0.0")),
 	}
 	if tier == "thorough" {
 		pool = append(pool,
@@ -774,7 +814,14 @@ func gen(tier string, emit func(engine.Case) bool) {
 	emitConf := func(fam string, conf absconf.Body) bool {
 		n++
 		for _, se := range specs {
-			d := Data{Conf: conf, Spec: se.name, Degenerate: []string{"x", "y"}, MaxCut: maxCut, DecorProd: thorough && conf.Size() <= 4, Native: absconf.Native(conf)}
+			if fam == "deep" {
+				if !se.deep && !deepAlso[se.name] {
+					continue
+				}
+			} else if se.deep {
+				continue
+			}
+			d := Data{Conf: conf, Spec: se.name, Degenerate: []string{"x", "y"}, MaxCut: maxCut, DecorProd: thorough && conf.Size() <= 4, Uniform: fam == "deep", Native: absconf.Native(conf)}
 			if !emit(engine.Case{ID: fmt.Sprintf("%s/%04d/%s", fam, n, se.name), Data: d}) {
 				return false
 			}
@@ -867,6 +914,45 @@ func gen(tier string, emit func(engine.Case) bool) {
 							return
 						}
 					}
+				}
+			}
+		}
+	}
+	// F5 ("deep"): block types with 3, 4 and 5 labels. Labels over {k,m}; block i has the body `a = i+1`.
+	// (a) two blocks: the all-k label tuple followed by every tuple (siblings that part at every level,
+	//     at several levels, and identical labels); (b) three blocks: all-k, then two tuples that each differ
+	//     from all-k at exactly one level or not at all (siblings at the deepest level under one parent next
+	//     to siblings at intermediate levels); thorough: (b) with every pair of tuples for 4 labels.
+	for _, nl := range []int{3, 4, 5} {
+		var tuples [][]string
+		for m := 0; m < 1<<nl; m++ {
+			t := make([]string, nl)
+			for i := range t {
+				t[i] = "k"
+				if m&(1<<(nl-1-i)) != 0 {
+					t[i] = "m"
+				}
+			}
+			tuples = append(tuples, t)
+		}
+		single := [][]string{tuples[0]}
+		for i := 0; i < nl; i++ {
+			single = append(single, tuples[1<<i])
+		}
+		blk := func(i int, t []string) absconf.Item { return B("x", t, A("a", numA(fmt.Sprint(i+1)))) }
+		for _, t := range tuples {
+			if !emitConf("deep", absconf.Body{blk(0, tuples[0]), blk(1, t)}) {
+				return
+			}
+		}
+		third := single
+		if thorough && nl == 4 {
+			third = tuples
+		}
+		for _, t1 := range third {
+			for _, t2 := range third {
+				if !emitConf("deep", absconf.Body{blk(0, tuples[0]), blk(1, t1), blk(2, t2)}) {
+					return
 				}
 			}
 		}
@@ -985,12 +1071,15 @@ func main() {
 		}
 		var confs, encs, max int64
 		fam := map[string][2]int64{}
+		seenConf := map[string]bool{}
 		defer func() { fmt.Println(fam) }()
 		gen(tier, func(c engine.Case) bool {
 			d := c.Data.(Data)
-			if d.Spec != specs[0].name {
+			key := c.ID[:strings.LastIndex(c.ID, "/")]
+			if seenConf[key] {
 				return true
 			}
+			seenConf[key] = true
 			confs++
 			n := int64(0)
 			absconf.Encodings(d.Conf, encOptions(d), func(*absconf.Encoding) bool { n++; return n < 300000 })
@@ -1010,9 +1099,9 @@ func main() {
 		ID:        "C03",
 		Title:     "Native and JSON syntaxes denote the same configuration",
 		Technique: "bounded exhaustive enumeration of abstract configurations x every admissible JSON encoding x hcldec spec table; differential native vs JSON on the real decoder, comparability decided by a reference reading of both syntaxes",
-		Rule: "abstract configurations (gen/absconf): the empty body; every literal of a pool (23 quick / 41 thorough: numbers incl. fraction, exponent, 23-digit integer; strings incl. escapes, non-ASCII, '$' and '%' without template sequences; bool; null; nested lists/objects incl. an object key \"//\") as top-level attribute, beside a second attribute and inside an unlabelled and a labelled block body; all sequences of <= 3 blocks over the types x,y for the label arities (x,y) in {00,10,01,11,20,21} with labels from {k,m}, each block with a distinguishing body (quick: arities 11,20,21 only <= 2 blocks; thorough: arities 00,10,01 up to 4 blocks and the label \"//\"), alone and with an attribute interleaved at the start and before the last block (quick, <= 2 blocks) / at every position (thorough, <= 3 blocks); one or two x blocks (unlabelled / labelled) over 7 nested bodies holding attributes and y blocks (nesting <= 2; quick: the smaller pairs); 23 kind-clash configurations (attribute named like a block type, block named like an attribute, items no spec mentions). " +
-			"x every admissible JSON encoding = the full choice tree of absconf.Encodings: per repeated block {new property with a duplicate name | joined to the latest property of its type, adjacent or across other blocks} x per label level {equal adjacent labels share a property | duplicate label names} x {object | array of objects with every order-preserving cut (above 3/4 properties only the one-property-per-element cut)} per label level and for the top-level body x {body object | one-element array} per single block; plus the decorations {\"//\" comment first | last in every body object | a degenerate \"x\"/\"y\": [] | \"x\"/\"y\": null property} on the three fixed structures plain, compact and arrays (thorough: on every structure for configurations of <= 4 items). Where the native reading already violates the schema only the fixed structures x all decorations are tried (nothing but 'also an error' can be checked there). " +
-			"x 42 hcldec specs (AttrSpec dynamic/typed/required, TupleSpec, DefaultSpec incl. required parts, LiteralSpec, BlockSpec, BlockListSpec with Min/Max, BlockSetSpec, BlockTupleSpec, BlockAttrsSpec, BlockMapSpec and BlockObjectSpec with 1 and 2 labels, BlockLabelSpec under list/block/tuple/set/map, ObjectSpec/TupleSpec combinations, nested block specs); every configuration meets every spec, which yields the schema perturbations (missing required, extra attribute/block, wrong label count, attribute where a block is expected and vice versa). " +
+		Rule: "abstract configurations (gen/absconf): the empty body; every literal of a pool (33 quick / 51 thorough: numbers incl. fraction, exponent, 23-digit integer and numbers that need more than 53 bits / 17 significant digits (9007199254740993, 8.000000000000003, 123456789012345678, 18446744073709551615, 0.1000000000000000055511151231257827, 1e-7, -0.0), also nested in lists and objects; strings incl. escapes, non-ASCII, '$' and '%' without template sequences; bool; null; nested lists/objects incl. an object key \"//\") as top-level attribute, beside a second attribute and inside an unlabelled and a labelled block body; all sequences of <= 3 blocks over the types x,y for the label arities (x,y) in {00,10,01,11,20,21} with labels from {k,m}, each block with a distinguishing body (quick: arities 11,20,21 only <= 2 blocks; thorough: arities 00,10,01 up to 4 blocks and the label \"//\"), alone and with an attribute interleaved at the start and before the last block (quick, <= 2 blocks) / at every position (thorough, <= 3 blocks); one or two x blocks (unlabelled / labelled) over 7 nested bodies holding attributes and y blocks (nesting <= 2; quick: the smaller pairs); 23 kind-clash configurations (attribute named like a block type, block named like an attribute, items no spec mentions); the 'deep' family: block type x with 3, 4 and 5 labels over {k,m}: the all-k tuple followed by every label tuple (2 blocks: siblings that part at every level, at several levels, identical labels) and all-k followed by every pair of tuples that differ from all-k at no or exactly one level (3 blocks: siblings at the deepest level under one parent next to siblings at intermediate levels; thorough: every pair of tuples for 4 labels). " +
+			"x every admissible JSON encoding = the full choice tree of absconf.Encodings: per repeated block {new property with a duplicate name | joined to the latest property of its type, adjacent or across other blocks} x per label level {equal adjacent labels share a property | duplicate label names} x {object | array of objects with every order-preserving cut (above 3/4 properties only the one-property-per-element cut)} per label level and for the top-level body x {body object | one-element array} per single block; plus the decorations {\"//\" comment first | last in every body object | a degenerate \"x\"/\"y\": [] | \"x\"/\"y\": null property} on the three fixed structures plain, compact and arrays (thorough: on every structure for configurations of <= 4 items). Where the native reading already violates the schema only the fixed structures x all decorations are tried (nothing but 'also an error' can be checked there). In the deep family the object/array, cut and one-element-array choices are made once per document (all label levels alike) while the join and duplicate-label choices, which decide which blocks are siblings in one JSON object, stay independent per block and level. " +
+			"x 42 hcldec specs for the ordinary families (AttrSpec dynamic/typed/required, TupleSpec, DefaultSpec incl. required parts, LiteralSpec, BlockSpec, BlockListSpec with Min/Max, BlockSetSpec, BlockTupleSpec, BlockAttrsSpec, BlockMapSpec and BlockObjectSpec with 1 and 2 labels, BlockLabelSpec under list/block/tuple/set/map, ObjectSpec/TupleSpec combinations, nested block specs); every configuration meets every spec, which yields the schema perturbations (missing required, extra attribute/block, wrong label count, attribute where a block is expected and vice versa); the deep family meets 12 specs of its own (for n = 3,4,5 labels: BlockListSpec with a BlockLabelSpec for every label index, BlockMapSpec and BlockObjectSpec with n label names, BlockMapSpec with 2 label names plus BlockLabelSpecs for the other n-2) and 3 ordinary ones as label-count mismatches. " +
 			"A case = (configuration, spec) and covers all its encodings; non-trivial = at least one encoding comparable or both-must-error; distinct = distinct (spec, decoded value, content, comparability counts) observations.",
 		Assumptions: []string{
 			"go-cty value equality (RawEquals) and number parsing are trusted",
